@@ -282,6 +282,11 @@ func (ms *Modules) process() []error {
 	for _, m := range ms.Modules {
 		mods = append(mods, m)
 	}
+	// Submodules that no loaded module includes have include and import
+	// statements to resolve, too.
+	for _, m := range ms.SubModules {
+		mods = append(mods, m)
+	}
 	for _, m := range mods {
 		if err := ms.include(m); err != nil {
 			errs = append(errs, err)
